@@ -524,6 +524,40 @@ class C13(common.Prop):
         arr = np.array(case["data"] if data is None else data, dtype=np.float64).reshape(F, P, N, D)
         mask = np.array(case["mask"], dtype=bool).reshape(F, P, N)
         pose = m["Pose"](self.header(case.get("comps"), N, D), self.body(case["backend"], case["shape"], arr, mask))
+        unique = "comps" in case and len({c["name"] for c in case["comps"]}) == len(case["comps"]) and \
+            all(len(set(c["points"])) == len(c["points"]) and "zz_extra" not in c["points"] for c in case["comps"])
+        if unique and (int(case["sf"] * 8) + N + F) % 2 == 1:          # names unique: selection by name is well defined (C11)
+            # the pose under test is DERIVED: a larger pose (one extra point in front of every component, so that every reference
+            # point sits at another index) is normalised first, then the case's components and points are selected from it.
+            # What was resolved for the larger pose must not be used for the selection.
+            try:
+                sup_comps = [{"name": c["name"], "points": ["zz_extra"] + list(c["points"])} for c in case["comps"]]
+                cols, k = [], 0
+                for c in case["comps"]:
+                    cols.append(None)
+                    cols.extend(range(k, k + len(c["points"])))
+                    k += len(c["points"])
+                N2 = len(cols)
+                arr2 = np.empty((F, P, N2, D), dtype=np.float64)
+                mask2 = np.zeros((F, P, N2), dtype=bool)
+                for q, src in enumerate(cols):
+                    if src is None:
+                        arr2[:, :, q] = 3.25 + q
+                    else:
+                        arr2[:, :, q] = arr[:, :, src]
+                        mask2[:, :, q] = mask[:, :, src]
+                sup = m["Pose"](self.header(sup_comps, N2, D), self.body(case["backend"], [F, P, N2, D], arr2, mask2))
+                try:
+                    sup.normalize(scale_factor=case["sf"])
+                except Exception:
+                    pass
+                sup.body = self.body(case["backend"], [F, P, N2, D], arr2, mask2)
+                derived = sup.get_components([c["name"] for c in case["comps"]], {c["name"]: list(c["points"]) for c in case["comps"]})
+                if [c.name for c in derived.header.components] == [c["name"] for c in case["comps"]] and \
+                        [list(c.points) for c in derived.header.components] == [list(c["points"]) for c in case["comps"]]:
+                    pose = derived
+            except Exception:
+                pass
         try:
             if "comps" in case:
                 pose.normalize(scale_factor=case["sf"])
